@@ -83,7 +83,7 @@ func c11Pairs(c *Case) {
 		d = c.G().DigitTree()
 		limit = 90
 	}
-	nodes := d.Nodes[1:]
+	nodes := d.Nodes // including the root node, addressed by "/"
 	if len(nodes) > limit {
 		nodes = nodes[:limit]
 	}
